@@ -22,7 +22,7 @@ import (
 // model's decoder and judged by the property oracle.
 func TestVerif_C14_containers(t *testing.T) {
 	s := verifh.New(t, "C14", "containers",
-		"bodies ENCODED BY THE MODEL (c14enc): gzip members {FTEXT, FHCRC, FEXTRA 0..300 B, FNAME / FCOMMENT 0..511 B, random MTIME/XFL/OS} x payload {empty, tiny, text, random, 65534..131070 B} x random split into stored blocks (empty blocks, 65535-byte blocks) x {1 member, 2-3 members, no member (empty body), cut inside a member (header / trailer / anywhere), message ended by the framing layer at a member boundary or inside, 1-9 stray bytes, >=10 garbage bytes, a bare second header, bit flip in magic|flags / optional fields / block header+LEN+NLEN / DEFLATE part / CRC+ISIZE, FNAME of 510..700 bytes}; raw stored DEFLATE {valid, + trailing bytes, cut, empty body, zlib-wrapped (RFC 9110 deflate), a gzip member, bit flip, framing error}; zstd frames {single-segment / window descriptor 1 KiB..1 MiB, Frame_Content_Size absent / 1 / 2 / 4 / 8 bytes, Content_Checksum, zero Dictionary_ID field, unused bit} x raw blocks (empty, up to 128 KiB) x {1 frame, 2-3 frames, skippable frames before / between / after / only, no frame, cut (header / check sum / anywhere), 1-3 stray bytes, >=4 garbage bytes, bit flip with and without check sum and in the header, wrong Frame_Content_Size, reserved bit, non-zero dictionary id, window >= 2^30, block larger than the window, block of 128 KiB + 1..3 after one of exactly 128 KiB, framing error at a frame boundary / inside}; read through compress.NewCompressReader over a body delivering 1..40-byte or unbounded chunks with 1-4 cycling Read sizes from {0, 1, 2, 3, 7, 13, 16, 97, 512, 4099, 65536, 200003}. Answer = all bytes delivered + final error class, compared with the model decoder (c14dec: Auto.mean of the gzip / deflate automaton); oracle: intact => payload + EOF, cut / garbage / framing error / wrong trailer => error after a prefix of the payload, bit flip under CRC => error or the payload; non-trivial = the body is not empty")
+		"bodies ENCODED BY THE MODEL (c14enc): gzip members {FTEXT, FHCRC, FEXTRA 0..300 B, FNAME / FCOMMENT 0..511 B, random MTIME/XFL/OS} x payload {empty, tiny, text, random, 65534..131070 B} x random split into stored blocks (empty blocks, 65535-byte blocks) x {1 member, 2-3 members, no member (empty body), cut inside a member (header / trailer / anywhere), message ended by the framing layer at a member boundary or inside, 1-9 stray bytes, >=10 garbage bytes, a bare second header, bit flip in magic|flags / optional fields / block header+LEN+NLEN / DEFLATE part / CRC+ISIZE, FNAME of 510..700 bytes}; raw stored DEFLATE {valid, + trailing bytes, cut, empty body, zlib-wrapped (RFC 9110 deflate), a gzip member, bit flip, framing error}; zstd frames {single-segment / window descriptor 1 KiB..1 MiB, Frame_Content_Size absent / 1 / 2 / 4 / 8 bytes, Content_Checksum, zero Dictionary_ID field, unused bit} x raw blocks (empty, up to 128 KiB) x {1 frame, 2-3 frames, skippable frames before / between / after / only, no frame, cut (header / check sum / anywhere), 1-3 stray bytes, >=4 garbage bytes, bit flip with and without check sum and in the header, wrong Frame_Content_Size, reserved bit, non-zero dictionary id, Window_Descriptor over its WHOLE range (exponent 0..16 in ordinary frames; 2 MiB..480 MiB with any mantissa, exactly 2^29 = the largest accepted, the seven descriptors just above 2^29 and everything up to 2^41: refused - the model's startBlocks decides), window >= 2^30, block larger than the window, block of 128 KiB + 1..3 after one of exactly 128 KiB, framing error at a frame boundary / inside}; read through compress.NewCompressReader over a body delivering 1..40-byte or unbounded chunks with 1-4 cycling Read sizes from {0, 1, 2, 3, 7, 13, 16, 97, 512, 4099, 65536, 200003}. Answer = all bytes delivered + final error class, compared with the model decoder (c14dec: Auto.mean of the gzip / deflate automaton); oracle: intact => payload + EOF, cut / garbage / framing error / wrong trailer => error after a prefix of the payload, bit flip under CRC => error or the payload; non-trivial = the body is not empty")
 	r := s.Rand()
 	hist := map[string]int{}
 	count := func(k string) { s.Count(k); hist[k]++ }
@@ -143,7 +143,7 @@ func TestVerif_C14_containers(t *testing.T) {
 		if st.Fmt == "zstd" && st.Fin != io.EOF && x.term == "eof" {
 			// klauspost zstd frameDec.reset turns the source's io.ErrUnexpectedEOF into io.EOF where a frame
 			// may start (permanent known finding; the model reports the source's error)
-			if _, _, rt := verifc14.Ref("zstd", st.Wire, st.Fin); rt == "eof" {
+			if _, _, rt := verifc14.RefRaw("zstd", st.Wire, st.Fin); rt == "eof" {
 				class = "zstd-source-error-at-frame-boundary"
 			}
 		}
@@ -156,7 +156,7 @@ func TestVerif_C14_containers(t *testing.T) {
 	for _, k := range []string{"valid", "trail", "trunc", "empty", "zlib", "gzip", "flip", "srcerr"} {
 		need = append(need, "deflate:"+k)
 	}
-	for _, k := range []string{"valid", "multi", "skip", "skip-only", "empty", "trunc", "trunc-multi", "stray", "garbage", "flip-sum", "flip-nosum", "flip-hdr", "fcs-wrong", "reserved-bit", "dict", "big-window", "block-gt-window", "block-gt-128k", "boundary-srcerr", "inside-srcerr"} {
+	for _, k := range []string{"valid", "multi", "skip", "skip-only", "empty", "trunc", "trunc-multi", "stray", "garbage", "flip-sum", "flip-nosum", "flip-hdr", "fcs-wrong", "reserved-bit", "dict", "big-window", "block-gt-window", "block-gt-128k", "boundary-srcerr", "inside-srcerr", "window-large", "window-max", "window-above"} {
 		need = append(need, "zstd:"+k)
 	}
 	for _, k := range need {
